@@ -80,77 +80,96 @@ theorem argsGo_ok (d : PkgDef) : ∀ (es : List Edge),
     rw [getInstantiationArguments.go]
     simp only [hj, hp, hl]
 
+/-- `get_instantiation_arguments` of an instantiation does not fail on a consistent graph and
+    lists exactly the sources of its incoming edges -/
+theorem getInstantiationArguments_sources {ctx : Ctx} {g : Graph} (h : Inv ctx g) {n : Nat} {nd : Node}
+    (hnd : g.node? n = some nd) (hinst : nd.isInst = true) :
+    ∃ l, getInstantiationArguments g n = .ok l ∧ l.map (·.2) = (g.inEdges n).map (·.src) := by
+  unfold getInstantiationArguments
+  rw [hnd]
+  simp only
+  cases hk : nd.kind with
+  | instantiation sat =>
+    simp only
+    have h2 := (h.node hnd).2.1
+    rw [hk] at h2
+    simp only at h2
+    obtain ⟨_, _, pid, hpid, pd, hpd, _⟩ := h2
+    rw [Option.mem_def] at hpid
+    rw [hpid]
+    simp only
+    -- the slot of the package
+    have hok := toOption_mem.mp hpd
+    unfold Graph.pkgOf at hok
+    cases hs : g.pkgs[pid.index]? with
+    | none => rw [hs] at hok; cases hok
+    | some slot =>
+      rw [hs] at hok
+      simp only at hok ⊢
+      split at hok
+      · cases hok
+      · cases hp : slot.pkg with
+        | none => rw [hp] at hok; cases hok
+        | some d =>
+          rw [hp] at hok
+          simp only [Except.ok.injEq] at hok
+          subst hok
+          simp only
+          have hall : ∀ e ∈ g.inEdges n, ∃ j, e.kind = .arg j ∧ j < d.imports.length := by
+            intro e he
+            unfold Graph.inEdges at he
+            rw [List.mem_filter] at he
+            have hdst : e.dst = n := by simpa using he.2
+            obtain ⟨s, _, dn, hdn, hkk⟩ := h.edges e he.1
+            rw [hdst, Option.mem_def, hnd] at hdn
+            cases hdn
+            obtain ⟨j, hj, _⟩ := inEdges_of_inst h hnd hinst e he.1 hdst
+            rw [hj] at hkk
+            simp only at hkk
+            obtain ⟨_, _, pid', hpid', pd', hpd', hlt⟩ := hkk
+            rw [Option.mem_def, hpid] at hpid'
+            cases hpid'
+            have : pd' = d := by
+              have h1 := toOption_mem.mp hpd'
+              have h2 := toOption_mem.mp hpd
+              rw [h1] at h2
+              exact Except.ok.inj h2
+            rw [this] at hlt
+            exact ⟨j, hj, hlt⟩
+          exact argsGo_ok d (g.inEdges n) hall
+  | definition ty => simp [Node.isInst, hk] at hinst
+  | «import» nm => simp [Node.isInst, hk] at hinst
+  | alias => simp [Node.isInst, hk] at hinst
+
 /-- `get_instantiation_arguments` does not fail on a consistent graph, and every argument
     source it reports is live -/
 theorem getInstantiationArguments_ok {ctx : Ctx} {g : Graph} (h : Inv ctx g) (n : Nat) :
     ∃ l, getInstantiationArguments g n = .ok l ∧ ∀ p ∈ l, g.live p.2 = true := by
-  unfold getInstantiationArguments
   cases hnd : g.node? n with
-  | none => exact ⟨[], rfl, fun _ hp => by cases hp⟩
+  | none =>
+    refine ⟨[], ?_, fun _ hp => nomatch hp⟩
+    unfold getInstantiationArguments
+    rw [hnd]
   | some nd =>
-    simp only
-    cases hk : nd.kind with
-    | instantiation sat =>
+    cases hinst : nd.isInst with
+    | true =>
+      obtain ⟨l, hl, hm⟩ := getInstantiationArguments_sources h hnd hinst
+      refine ⟨l, hl, ?_⟩
+      intro p hp'
+      have : p.2 ∈ l.map (·.2) := List.mem_map_of_mem (f := (·.2)) hp'
+      rw [hm] at this
+      obtain ⟨e, he, hsrc⟩ := List.mem_map.mp this
+      unfold Graph.inEdges at he
+      rw [List.mem_filter] at he
+      obtain ⟨⟨s, hs'⟩, _⟩ := h.edge_live he.1
+      rw [← hsrc]
+      exact live_iff.mpr ⟨s, hs'⟩
+    | false =>
+      refine ⟨[], ?_, fun _ hp => nomatch hp⟩
+      unfold getInstantiationArguments
+      rw [hnd]
       simp only
-      have hinst : nd.isInst = true := by simp [Node.isInst, hk]
-      have h2 := (h.node hnd).2.1
-      rw [hk] at h2
-      simp only at h2
-      obtain ⟨_, _, pid, hpid, pd, hpd, _⟩ := h2
-      rw [Option.mem_def] at hpid
-      rw [hpid]
-      simp only
-      -- the slot of the package
-      have hok := toOption_mem.mp hpd
-      unfold Graph.pkgOf at hok
-      cases hs : g.pkgs[pid.index]? with
-      | none => rw [hs] at hok; cases hok
-      | some slot =>
-        rw [hs] at hok
-        simp only at hok ⊢
-        split at hok
-        · cases hok
-        · cases hp : slot.pkg with
-          | none => rw [hp] at hok; cases hok
-          | some d =>
-            rw [hp] at hok
-            simp only [Except.ok.injEq] at hok
-            subst hok
-            simp only
-            have hall : ∀ e ∈ g.inEdges n, ∃ j, e.kind = .arg j ∧ j < d.imports.length := by
-              intro e he
-              unfold Graph.inEdges at he
-              rw [List.mem_filter] at he
-              have hdst : e.dst = n := by simpa using he.2
-              obtain ⟨s, _, dn, hdn, hkk⟩ := h.edges e he.1
-              rw [hdst, Option.mem_def, hnd] at hdn
-              cases hdn
-              obtain ⟨j, hj, _⟩ := inEdges_of_inst h hnd hinst e he.1 hdst
-              rw [hj] at hkk
-              simp only at hkk
-              obtain ⟨_, _, pid', hpid', pd', hpd', hlt⟩ := hkk
-              rw [Option.mem_def, hpid] at hpid'
-              cases hpid'
-              have : pd' = d := by
-                have h1 := toOption_mem.mp hpd'
-                have h2 := toOption_mem.mp hpd
-                rw [h1] at h2
-                exact Except.ok.inj h2
-              rw [this] at hlt
-              exact ⟨j, hj, hlt⟩
-            obtain ⟨l, hl, hm⟩ := argsGo_ok d (g.inEdges n) hall
-            refine ⟨l, hl, ?_⟩
-            intro p hp'
-            have : p.2 ∈ l.map (·.2) := List.mem_map_of_mem (f := (·.2)) hp'
-            rw [hm] at this
-            obtain ⟨e, he, hsrc⟩ := List.mem_map.mp this
-            unfold Graph.inEdges at he
-            rw [List.mem_filter] at he
-            obtain ⟨⟨s, hs'⟩, _⟩ := h.edge_live he.1
-            rw [← hsrc]
-            exact live_iff.mpr ⟨s, hs'⟩
-    | definition ty => exact ⟨[], rfl, fun _ hp => by cases hp⟩
-    | «import» nm => exact ⟨[], rfl, fun _ hp => by cases hp⟩
-    | alias => exact ⟨[], rfl, fun _ hp => by cases hp⟩
+      unfold Node.isInst at hinst
+      cases hk : nd.kind <;> simp [hk] at hinst ⊢
 
 end Wac.Graph
